@@ -417,11 +417,12 @@ type attackSim struct {
 	durPossible   bool
 	simEnd        time.Duration
 
-	trigStep   int // first step at which a non-Stop stop trigger existed (-1 none)
-	anyTrigger bool
-	stops      []*stopCall
-	stopsLeft  int
-	actorStop  map[int]*stopCall
+	trigStep     int // first step at which a non-Stop stop trigger existed (-1 none)
+	selfStopSeen int // step at which the result of the hit that met the targeter failure was received (-1: not yet)
+	anyTrigger   bool
+	stops        []*stopCall
+	stopsLeft    int
+	actorStop    map[int]*stopCall
 
 	loopDeadline   time.Duration // when the loop's sleep ends (-1 unknown/none)
 	loopReleasedAt int           // step of the last pace release (non-stop)
@@ -455,7 +456,7 @@ func (s *attackSim) fail(prop, class, format string, args ...any) {
 func (s *attackSim) inflight() int { return s.S - s.C }
 
 func runAttack(t *testing.T, rc *simrt.Config, prop string, tape *simrt.Tape, keep bool) (out simrt.Outcome) {
-	s := &attackSim{t: t, tape: tape, prop: prop, bySeq: map[int64]int{}, seen: map[uint64]resultSnap{}, trigStep: -1,
+	s := &attackSim{t: t, tape: tape, prop: prop, bySeq: map[int64]int{}, seen: map[uint64]resultSnap{}, trigStep: -1, selfStopSeen: -1,
 		actorStop: map[int]*stopCall{}, loopDeadline: -1, stats: map[string]int{}, bpSkips: map[int]int{}, bpRelStep: map[int]int{}}
 	pv := bubble(t, func() { s.run(keep) })
 	if s.w != nil {
